@@ -167,12 +167,15 @@ class Stepper:
     def op_strategy(self):
         run = st.fixed_dictionaries({'op': st.just('run'), 'script': _script,
                                      'inputs': st.one_of(st.none(), st.none(), st.lists(st.sampled_from(INPUT_VALUES), max_size=3))})
+        call_inputs = st.one_of(st.none(), st.none(), st.just([]), st.just(''), st.sampled_from(INPUT_VALUES), st.lists(st.sampled_from(INPUT_VALUES), max_size=2),
+                                st.just(0), st.just(()))
         call = st.one_of(
             st.fixed_dictionaries({'op': st.just('call'), 'f': st.just('say'), 'args': st.lists(st.sampled_from(TEXTS), max_size=3),
                                    'sep': st.sampled_from(SEPS), 'end': st.sampled_from(ENDS)}),
             st.fixed_dictionaries({'op': st.just('call'), 'f': st.just('raw'), 'args': st.lists(st.sampled_from(TEXTS), min_size=1, max_size=1)}),
-            st.fixed_dictionaries({'op': st.just('call'), 'f': st.just('ask'), 'args': st.lists(st.sampled_from(PROMPTS), min_size=1, max_size=1)}),
-            st.fixed_dictionaries({'op': st.just('call'), 'f': st.just('ask_many'), 'n': st.integers(0, 3)}),
+            st.fixed_dictionaries({'op': st.just('call'), 'f': st.just('ask'), 'args': st.lists(st.sampled_from(PROMPTS), min_size=1, max_size=1),
+                                   'inputs': call_inputs}),
+            st.fixed_dictionaries({'op': st.just('call'), 'f': st.just('ask_many'), 'n': st.integers(0, 3), 'inputs': call_inputs}),
             st.fixed_dictionaries({'op': st.just('call'), 'f': st.just('quiet'), 'args': st.just(['v'])}),
             st.fixed_dictionaries({'op': st.just('call'), 'f': st.just('fail'), 'args': st.lists(st.sampled_from(TEXTS), min_size=1, max_size=1)}),
         )
@@ -251,6 +254,13 @@ class Stepper:
                     viol.append(V('C15|harness-script-outcome', 'script raised=%r but sandbox.exception=%r' % (raised, sb.exception)))
             elif kind == 'call':
                 f = op['f']
+                extra = {}
+                if op.get('inputs') is not None:
+                    given = op['inputs']
+                    given = tuple(given) if isinstance(given, list) and op.get('as_tuple') else given
+                    extra['inputs'] = given
+                    self.model.set_input(given, True)     # call(inputs=X) is documented to behave like set_input(X)
+                    self.queue_op_pending = True
                 n_inputs = len(self.model.queue)
                 if f == 'say':
                     script = [{'k': 'print', 'args': op['args'], 'sep': op['sep'], 'end': op['end']}]
@@ -263,11 +273,11 @@ class Stepper:
                     expect = 0
                 elif f == 'ask':
                     t, used, _ = self.model.execute([{'k': 'input', 'prompt': op['args'][0]}])
-                    r = sb.call('ask', op['args'][0])
+                    r = sb.call('ask', op['args'][0], **extra)
                     expect = used[0]
                 elif f == 'ask_many':
                     t, used, _ = self.model.execute([{'k': 'input', 'prompt': 'q>'}] * op['n'])
-                    r = sb.call('ask_many', op['n'])
+                    r = sb.call('ask_many', op['n'], **extra)
                     expect = list(used)
                 elif f == 'quiet':
                     t, used, _ = self.model.execute([])
